@@ -92,13 +92,64 @@ func genMesh(r *wire.Rng, nss []string) meshSpec {
 	m.defVS, m.nilVS = genDefault(r, nss, true)
 	m.defDR, m.nilDR = genDefault(r, nss, false)
 	m.apply = r.Chance(1, 5)
+	// serviceEntryVisibility policies over namespace labels (resolved by the real
+	// CompileServiceEntryVisibility / VisibilityFor for the services of class "a")
+	if r.Chance(1, 3) {
+		m.apply = m.apply || r.Chance(2, 3)
+		m.sev = &sevSpec{dflt: wire.Pick(r, []string{"u", "p", "n", "x"})}
+		for k := r.Intn(3); k > 0; k-- {
+			p := sevPolicy{vis: wire.Pick(r, []string{"u", "p", "n", "n", "x"})}
+			for j := r.Intn(3); j > 0; j-- {
+				switch r.Intn(8) {
+				case 0:
+					p.rules = append(p.rules, sevRule{kind: "?"})
+				case 1:
+					p.rules = append(p.rules, sevRule{kind: "!"})
+				case 2:
+					p.rules = append(p.rules, sevRule{kind: "s", labels: map[string]string{}})
+				default:
+					l := map[string]string{wire.Pick(r, []string{"team", "env"}): wire.Pick(r, []string{"a", "b"})}
+					if r.Chance(1, 4) {
+						l["env"] = wire.Pick(r, []string{"a", "b"})
+					}
+					p.rules = append(p.rules, sevRule{kind: "s", labels: l})
+				}
+			}
+			m.sev.policies = append(m.sev.policies, p)
+		}
+		m.nsLabels = map[string]map[string]string{}
+		for _, ns := range nss {
+			l := map[string]string{}
+			if r.Chance(2, 3) {
+				l["team"] = wire.Pick(r, []string{"a", "b"})
+			}
+			if r.Chance(1, 2) {
+				l["env"] = wire.Pick(r, []string{"a", "b"})
+			}
+			m.nsLabels[ns] = l
+		}
+	}
 	return m
+}
+
+// meshLines: the mesh line and the namespace label lines of a case.
+func meshLines(m meshSpec) [][]string {
+	out := [][]string{m.line()}
+	var nss []string
+	for ns := range m.nsLabels {
+		nss = append(nss, ns)
+	}
+	sort.Strings(nss)
+	for _, ns := range nss {
+		out = append(out, []string{"nsl", wire.Enc(ns), encLabels(m.nsLabels[ns], false)})
+	}
+	return out
 }
 
 // genSvcs: 2-12 services over the namespaces, colliding hostnames across (and sometimes within)
 // namespaces, Kubernetes and ServiceEntry provenance, distinct (creation time, name) sort keys.
 // At most one Kubernetes service per hostname (a Kubernetes hostname names its namespace).
-func genSvcs(r *wire.Rng, nss []string, hosts []string, n int, aliases bool) []svcSpec {
+func genSvcs(r *wire.Rng, nss []string, hosts []string, n int, aliases bool, sev bool) []svcSpec {
 	var out []svcSpec
 	k8sHost := map[string]bool{}
 	for i := 0; i < n; i++ {
@@ -115,7 +166,7 @@ func genSvcs(r *wire.Rng, nss []string, hosts []string, n int, aliases bool) []s
 		np := 1 + r.Intn(3)
 		used := map[int]bool{}
 		for j := 0; j < np; j++ {
-			p := wire.Pick(r, []int{80, 81, 8080, 9090})
+			p := wire.Pick(r, []int{80, 81, 8080, 9090, 8443})
 			if used[p] {
 				continue
 			}
@@ -124,6 +175,8 @@ func genSvcs(r *wire.Rng, nss []string, hosts []string, n int, aliases bool) []s
 			// that services sharing a hostname agree on it)
 			if p == 9090 {
 				s.ports = append(s.ports, portSpec{p, fmt.Sprintf("tcp-%d", p)})
+			} else if p == 8443 {
+				s.ports = append(s.ports, portSpec{p, fmt.Sprintf("tls-%d", p)})
 			} else {
 				s.ports = append(s.ports, portSpec{p, fmt.Sprintf("p%d", p)})
 			}
@@ -132,6 +185,9 @@ func genSvcs(r *wire.Rng, nss []string, hosts []string, n int, aliases bool) []s
 		s.vis = "p"
 		if r.Chance(1, 6) {
 			s.vis = wire.Pick(r, []string{"n", "x"})
+		}
+		if sev && !s.k8s && r.Chance(2, 3) {
+			s.vis = "a" // a ServiceEntry whose visibility the mesh policies resolve
 		}
 		s.res = r.Intn(2)
 		if r.Chance(1, 5) {
@@ -201,6 +257,8 @@ func genVS(r *wire.Rng, nss, hosts []string, i int) vsSpec {
 		v.gateways = []string{"gw1"}
 	case 2:
 		v.gateways = []string{"gw1", "mesh"}
+	case 3:
+		v.gateways = []string{"./gw1"}
 	}
 	v.gwSem = r.Chance(1, 6)
 	for k := 1 + r.Intn(2); k > 0; k-- {
@@ -325,15 +383,36 @@ func genScope(seed uint64, ncases int, out string) {
 		nss := nsPool[:2+r.Intn(3)]
 		hosts := hostPool[:3+r.Intn(len(hostPool)-2)]
 		u, p, e := !r.Chance(1, 5), !r.Chance(1, 4), !r.Chance(1, 6)
-		o.Line("case", fmt.Sprint(c), "scope", "U="+wire.B(u), "P="+wire.B(p), "E="+wire.B(e))
+		o.Line("case", fmt.Sprint(c), "scope", "U="+wire.B(u), "P="+wire.B(p), "E="+wire.B(e),
+			"L="+wire.B(!r.Chance(1, 4)), "C="+wire.B(r.Chance(1, 4)))
 		m := genMesh(r, nss)
-		o.Line(m.line()...)
-		svcs := genSvcs(r, nss, hosts, 2+r.Intn(11), true)
+		for _, l := range meshLines(m) {
+			o.Line(l...)
+		}
+		svcs := genSvcs(r, nss, hosts, 2+r.Intn(11), true, m.sev != nil)
 		for _, s := range svcs {
 			o.Line(s.line()...)
 		}
+		var gwBound []vsSpec
 		for i, n := 0, r.Intn(5); i < n; i++ {
-			o.Line(genVS(r, nss, hosts, i).line()...)
+			v := genVS(r, nss, hosts, i)
+			// a delegate VirtualService (no hosts, own exportTo) and a delegating route in the root
+			if !v.gwSem && r.Chance(1, 4) {
+				dg := genVS(r, nss, hosts, i)
+				dg.name, dg.hosts, dg.gateways, dg.gwSem, dg.tcp = fmt.Sprintf("dg%d", i), nil, nil, false, nil
+				dns := dg.ns
+				if dg.ns == v.ns && r.Chance(1, 2) {
+					dns = ""
+				}
+				v.http = append(v.http, httpSpec{delegate: &[2]string{dns, dg.name}})
+				o.Line(dg.line()...)
+			}
+			for _, g := range v.gateways {
+				if g != "mesh" {
+					gwBound = append(gwBound, v)
+				}
+			}
+			o.Line(v.line()...)
 		}
 		for i, n := 0, r.Intn(5); i < n; i++ {
 			d := genDR(r, nss, hosts, i)
@@ -374,6 +453,11 @@ func genScope(seed uint64, ncases int, out string) {
 		lbl := "-"
 		if r.Chance(1, 3) {
 			lbl = "app=" + wire.Pick(r, []string{"a", "b"})
+		}
+		// the merged VirtualServices and the VirtualService selection of a Router for a named gateway
+		o.Line("merged")
+		for _, v := range gwBound {
+			o.Line("vsgw", wire.Enc(wire.Pick(r, nss)), wire.Enc(v.ns+"/gw1"))
 		}
 		xns := wire.Pick(r, nss)
 		o.Line("xds", wire.Enc(xns), lbl)
